@@ -43,6 +43,17 @@ handler events (which do not take `publishMu`) and other tasks' `analyse` steps 
 in between, and the model lets them.  What is atomic in the model is exactly one critical section
 of `docVerMu`, one mutex operation, or one client call.
 
+Domain and what `diag` stands for.  URIs are `file://` URIs and a client is attached: for any
+other URI `publishDiagnosticsVersion` returns at l. 301-303 (and at l. 291-293 without a client)
+before it reaches the publish protocol — such a task publishes nothing at all, hence nothing stale
+either; it is not modelled.  `diag text` stands for "whatever lines 295-331 compute from the
+captured text": the empty list when `Features.Diagnostics` is off (l. 296-299 — that path goes
+through `publishIfCurrent` too), otherwise `analyze` plus the include-load errors.  It is a function
+of the text alone as long as settings, workspace and the files on disk do not change during the
+trace (the harness keeps them fixed; C19 is about changing settings).
+
+`publishMu` is ONE mutex for the whole server (not one per URI): `lock : Option Nat` below.
+
 In the pinned variant a task has the steps `analyse i` and `publish i` only (no lock, no check);
 `ver`/`seq` and the task numbers are then ghost bookkeeping (the pinned code has no such fields,
 and no step of the pinned variant reads them).
